@@ -4,6 +4,7 @@ import os
 
 from .. import common as C
 from ..translate import regchain as TR
+from ..translate import verify_c as TC
 from . import regcommon as RC
 
 ID = "C06"
@@ -27,6 +28,9 @@ THEOREMS = [
     "C06_generated_lookup_changed_eq_model", "C06_generated_changed_eq_model",
     "C06_generated_changed_eq_after_bump", "C06_generated_setBases_eq_model",
     "C06_generated_verify_eq_model", "C06_generated_init_eq_model",
+    "C06_generated_c_generations_eq_model", "C06_generated_c_changed_eq_model",
+    "C06_generated_c_lookup_changed_eq_model", "C06_generated_c_verify_eq_model",
+    "C06_generated_c_verify_null_slot_calls_changed",
 ]
 SOURCE = os.path.join(C.REPO, "src", "zope", "interface", "adapter.py")
 GEN_FILE = os.path.join(C.COQ, "Gen", "RegChainKernel.v")
@@ -60,7 +64,11 @@ TRUSTED_BASE = [
     "Model/RegPrim.v: attributes of a registry or of its lookup object = fields of its record, _v_subregistries = "
     "insertion-ordered key list, ro.ro(self) = fresh_ro, method resolution computed from the class skeleton the "
     "translator checks, single-threaded execution (the re-check loop of _refresh_ro is proved to exit in its first "
-    "round); the C twins of LookupBase/VerifyingBase.changed/_verify are tied by the correspondence only",
+    "round)",
+    "harness/translate/verify_c.py (fail-closed extractor over cskeleton.py's C parser) and Model/VerifyCPrims.v: "
+    "tuple(x) keeps the elements, PyTuple_GetSlice = list slice, tuple != tuple = element-wise comparison, attributes "
+    "as record fields; reference counting and the NULL/-1 failure branches are not translated (C11); LB_clear's "
+    "cache release is translated, the C LookupBase lookups are C08's subject",
 ]
 ASSUMPTIONS = [
     "registry graphs are acyclic: __bases__ only ever names registries created earlier (the real code recurses "
@@ -86,9 +94,21 @@ def regenerate(run):
     except (OSError, SyntaxError) as e:
         text = TR.stub(SOURCE, repr(e))
         errs.append("harness/translate/regchain.py cannot read %s: %r" % (SOURCE, e))
+    # the C twins VB_clear / _generations_tuple / verify_changed / _verify
+    c_ok = True
+    try:
+        ctext = TC.extract()
+    except Exception as e:  # noqa: Abort or anything unexpected: refuse
+        c_ok = False
+        csrc = os.path.join(C.REPO, TC.SOURCE)
+        ctext = TC.stub(csrc, "%s: %s" % (type(e).__name__, e))
+        errs.append("harness/translate/verify_c.py refused %s: %s: %s (Gen/VerifyC.v has no kernel; the "
+                    "C06_generated_c_* theorems are NOT about the current source)" % (csrc, type(e).__name__, e))
     with C.CoqLock():
         C.write_if_changed(GEN_FILE, text)
-    run.coverage["translated_kernel"] = {"source": SOURCE, "generated": "coq/Gen/RegChainKernel.v", "ok": not errs}
+        C.write_if_changed(TC.OUT, ctext)
+    run.coverage["translated_kernel"] = {"source": SOURCE, "generated": "coq/Gen/RegChainKernel.v", "ok": not errs,
+                                         "c_source": TC.SOURCE, "c_generated": "coq/Gen/VerifyC.v", "c_ok": c_ok}
     ok, out = C.coq_make(["Tie/C06.vo"])
     if not ok:
         errs.append("Tie/C06.vo does not build:\n" + out[-2000:])
@@ -621,8 +641,8 @@ TECHNIQUE = ("Coq proof by induction over registry histories of a Gallina transc
              "translator on every run (invariants: sub-registry lists mirror __bases__; generation snapshots never run ahead "
              "and a matching snapshot implies a current order; frame, totality and membership lemmas for the C3 "
              "resolver); vm_compute correspondence with both implementations and an independent replay oracle in Coq")
-LEVEL_TEXT = ("Machine-checked theorems (Properties/C06.v, 30 theorems, closed under the global context; 8 of them state "
-              "that the functions regenerated from adapter.py's current text equal the model's for all states): for every "
+LEVEL_TEXT = ("Machine-checked theorems (Properties/C06.v, 35 theorems, closed under the global context; 13 of them state "
+              "that the functions regenerated from adapter.py's current text, and the data semantics extracted from the C functions verify_changed/_verify/_generations_tuple/VB_clear, equal the model's for all states): for every "
               "history of registry creation, __bases__ reassignment at any level, registrations and subscriptions in any "
               "member, rebuild() and lookups, over homogeneous AND mixed registry graphs (verifying registries over push bases), "
               "any specification world and any factory behaviour, (push) the cached resolution "
